@@ -74,13 +74,17 @@ def kernel_params(rng, name):
     # is as legal as any other and must be forwarded as given
     zero = [0, 0.0][int(rng.integers(0, 2))]
     if name in ("poly", "polynomial"):
-        return {"degree": int(rng.integers(1, 4)), "gamma": float(rng.uniform(0.05, 0.6)),
+        full = {"degree": int(rng.integers(1, 4)), "gamma": float(rng.uniform(0.05, 0.6)),
                 "coef0": zero if rng.random() < 0.3 else float(rng.uniform(0, 2))}
-    if name in ("rbf", "laplacian", "chi2"):
-        return {"gamma": float(rng.uniform(0.02, 0.8))}
-    if name == "sigmoid":
-        return {"gamma": float(rng.uniform(0.01, 0.2)), "coef0": zero if rng.random() < 0.3 else float(rng.uniform(-1, 1))}
-    return {}
+    elif name in ("rbf", "laplacian", "chi2"):
+        full = {"gamma": float(rng.uniform(0.02, 0.8))}
+    elif name == "sigmoid":
+        full = {"gamma": float(rng.uniform(0.01, 0.2)), "coef0": zero if rng.random() < 0.3 else float(rng.uniform(-1, 1))}
+    else:
+        return {}
+    # partial dictionaries are as legal as complete ones: what is left out takes scikit-learn's default, resolved for the
+    # data at hand at every call (gamma = 1 / n_features)
+    return {k: v for k, v in full.items() if rng.random() >= 0.3}
 
 
 def metric_params(rng, name):
@@ -166,12 +170,20 @@ def gemini_from_desc(desc):
 
 
 def random_gemini_desc(rng, allow_precomputed=True, nonneg=False, allow_callable=True, wasserstein=True):
-    """A random GEMINI instance descriptor covering all classes, both modes, kernels/metrics with parameters."""
+    """A random GEMINI instance descriptor covering all classes, both modes, kernels/metrics with parameters; one in five
+    carries a non-default clipping bound epsilon (any float in (0, 1) is accepted; 1e-10 .. 0.05 are drawn)."""
+    desc = _random_gemini_desc(rng, allow_precomputed, nonneg, allow_callable, wasserstein)
+    if rng.random() < 0.2:
+        desc["epsilon"] = float(10 ** rng.uniform(-10, -1.3))
+    return desc
+
+
+def _random_gemini_desc(rng, allow_precomputed=True, nonneg=False, allow_callable=True, wasserstein=True):
     r = rng.random()
     ovo = bool(rng.random() < 0.5)
     if r < 0.34:
         cls = FDIV_CLASSES[int(rng.integers(0, 4))]
-        if rng.random() < 0.1 and not ovo:
+        if rng.random() < 0.15:
             return {"cls": "MI"}
         return {"cls": cls, "ovo": ovo}
     if r < 0.67 or not wasserstein:
@@ -238,8 +250,11 @@ def get_class(name):
 
 def build_estimator(name, params):
     """params is JSON-able; 'gemini' may be a descriptor, 'kernel'/'base_kernel' may be {"callable": name},
-    'feature_mask' a list of bools."""
-    p = dict(params)
+    'feature_mask' a list of bools.  The estimator receives its own deep copy of every mutable value (parameter
+    dictionaries, group lists): two estimators built from one descriptor share nothing, and the descriptor stays as
+    written whatever an estimator does to its hyperparameters."""
+    import copy
+    p = copy.deepcopy(dict(params))
     if "gemini" in p and isinstance(p["gemini"], dict):
         p["gemini"] = gemini_from_desc(p["gemini"])
     for k in ("kernel", "base_kernel"):
